@@ -4,5 +4,7 @@ package all
 import (
 	_ "verif/harness/c02"
 	_ "verif/harness/c07"
+	_ "verif/harness/c09"
 	_ "verif/harness/c13"
+	_ "verif/harness/c16"
 )
